@@ -12,9 +12,9 @@ V_ALLOC = {"rel": 0.7, "asan": 0.3}
 CHECKS = {}
 
 
-def check(prop, level, batches, rule, real_code, required_probes=(), assumptions=(), stubs=()):
+def check(prop, level, batches, rule, real_code, required_probes=(), assumptions=(), stubs=(), evaluations_probe=None):
     CHECKS[prop] = dict(level=level, batches=batches, rule=rule, real_code=list(real_code),
-                        required_probes=list(required_probes),
+                        required_probes=list(required_probes), evaluations_probe=evaluations_probe,
                         assumptions=ASSUME_COMMON + list(assumptions), stubs=STUBS_COMMON + list(stubs))
 
 
@@ -281,3 +281,63 @@ mtext("C11",
       "trusted: direct-scan reference for search/find/reverse, multiset comparison by sorting copies with libc qsort",
       "deterministic simulation (degenerate apart from the seeded rand() stream and checking callbacks): seeded inputs vs reference",
       "DESIGN.md 4.C11")
+
+
+V_C15 = {"asan": 0.5, "rel": 0.4, "dbg": 0.1}
+check("C15", "exploration",
+      [dict(world="trees", mode=15, variants=V_C15, quick=30000, thorough=3000000),
+       dict(world="heap", mode=15, variants=V_C15, quick=30000, thorough=3000000),
+       dict(world="lists", mode=15, variants=V_C15, quick=30000, thorough=3000000),
+       dict(world="map", mode=15, variants={"asan": 0.5, "rel": 0.5}, quick=30000, thorough=3000000)],
+      "one evaluation = one seeded history in which clear is frequent and its callback counts per element, overwrites the whole element with 0xDD and frees it to the sim heap (poisoned, quarantined; really freed under ASan), "
+      "followed by a refill of the same container and ordinary operations with the world's full audit; container states at the moment of clear come from the preceding seeded history; distinct = distinct plan hash; non-trivial as in the world",
+      ["src/bintree.c (clear)", "src/dlist.c", "src/slist.c", "src/map.c", "include/cstl/rbtree.h", "include/cstl/heap.h"],
+      required_probes=["clear", "clear_3plus", "d_clear", "s_clear", "map_clear"],
+      stubs=["clear callbacks that free and poison what they are handed (a fault injected at a seam)"])
+mtext("C15",
+      "Runs inside the trees / heap / lists / map worlds with clear-heavy plans: the clear callback records the identity of what it is handed, overwrites the element with 0xDD and frees it to the sim heap; the multiset of callbacks must equal the model's content exactly, "
+      "size/front/back/get/find must report empty, and a refill plus further operations (audited by the world's normal oracles, attributed to C15 for the first operations after a clear) proves reusability. A touch of a freed element is an ASan report at the faulting instruction (half the runs), "
+      "or in the plain build a 0xDD pointer that faults / a write-after-free found by the poison audit. For the map the node blocks must all be gone after clear.",
+      "trusted: per-world models, sim heap poison/quarantine, ASan",
+      "deterministic simulation: callback fault (free + poison inside the clear callback) on seeded container states, ASan + poison audit",
+      "DESIGN.md 4.C15")
+
+V_C16 = {"rel": 0.7, "asan": 0.3}
+check("C16", "fault_enumeration",
+      [dict(world="map", mode=16, variants=V_C16, quick=500, thorough=20000),
+       dict(world="vector", mode=16, variants=V_C16, quick=500, thorough=20000),
+       dict(world="string", mode=16, variants=V_C16, quick=500, thorough=20000),
+       dict(world="hash", mode=16, variants=V_C16, quick=500, thorough=20000),
+       dict(world="mem", mode=16, variants=V_C16, quick=500, thorough=20000),
+       dict(world="array", mode=16, variants=V_C16, quick=500, thorough=20000)],
+      "for each seeded script (500 per world quick, 20000 thorough; no other faults): a fault-free dry run counts the library's allocation calls N, then the script is re-executed with EVERY single ordinal 1..N failing, EVERY suffix 'from k on everything fails', "
+      "EVERY pair (N <= 40, 400 seeded pairs above) and EVERY triple (N <= 12); each faulted execution runs to the end of the script (continued use after the failure) under the world's normal oracle, whose model predicts the documented failure mode from the allocator's own answer; "
+      "evaluations = scripts + faulted executions; distinct = distinct scripts (plan hash); the placement space per script is enumerated, the scripts are sampled",
+      ["src/map.c", "src/vector.c", "src/_string.c", "src/hash.c", "src/memory.c", "src/array.c"],
+      required_probes=["c16_scripts", "c16_single_fired", "c16_suffix_fired", "c16_pair_fired", "c16_triple_fired", "c16_ended_by_documented_abort", "alloc_fail_fired"],
+      evaluations_probe="c16_faulted_executions",
+      stubs=["allocator failure by global ordinal bitmap / suffix (C16 enumeration)"])
+mtext("C16",
+      "Systematic fault placement over seeded scripts for every allocating module: every single allocation, every suffix, every pair (all triples for short scripts) fails in turn; each execution continues to the end of the script and ends with a leak audit. "
+      "Expected outcomes come from the allocator's own answer: map insert -> -1 + end iterator + unchanged map; vector/string reserve, hash resize/shrink -> no change (hash table keeps answering: checkpoint audit); vector/string growth -> abort with a clean heap audit; "
+      "unique/shared/array alloc -> empty object; nothing leaked, double-freed or written out of bounds (canaries / ASan). The placement space per script is enumerated exhaustively; the scripts themselves are seeded samples.",
+      "trusted: per-world models, the rule 'fails the documented way iff the allocator said no', sim-heap accounting",
+      "deterministic simulation with systematic allocation-failure enumeration (single / suffix / pair / triple placements) over seeded scripts",
+      "DESIGN.md 4.C16")
+
+check("C20", "fault_enumeration",
+      [dict(world="mem", mode=20, variants={"rel": 0.8, "asan": 0.2}, quick=40000, thorough=4000000),
+       dict(world="array", mode=20, variants={"rel": 0.8, "asan": 0.2}, quick=20000, thorough=2000000)],
+      "one evaluation = one seeded history (which produces the object states: empty / owning / shared with others / weak-only / array full view / slice / external) followed by one injected fault: an object is duplicated (memcpy, original kept) or relocated (memcpy, original scrubbed) "
+      "and one public function is applied with the stray copy in one argument position; the (function x position x state x duplicate/relocate) cell is part of the violation key and of the fired-count probes; distinct = distinct plan hash",
+      ["include/cstl/memory.h", "src/memory.c", "src/array.c", "include/cstl/array.h"],
+      required_probes=["c20_stray_call", "c20_stray_aborted"],
+      stubs=["bitwise copy / relocation of pointer objects by the harness (the fault)"])
+mtext("C20",
+      "Fault = a guarded/unique/shared/weak pointer object or an array object duplicated or relocated with memcpy in a seeded object state; then every public entry point that would read, transfer or release the pointer is applied with the stray in each argument position "
+      "(guarded get/get_const/copy-src/swap; unique get/get_const/release/swap/reset/alloc; shared get/get_const/unique/share-src/share-dst/swap/reset/alloc/weak_from-src/weak_lock-dst; weak from-dst/lock-src/swap/reset; array data/at/slice-src/slice-dst/unslice-src/unslice-dst/reset/release/alloc/set). "
+      "The call must abort, and between its invocation and the abort no clear callback and no free may hit the allocation the stray refers to (a destination-side release that the documented order performs first is allowed); in the duplicate case the original must keep answering. "
+      "The converse (properly moved objects never abort) is checked by every C05, C06 and C14 run.",
+      "trusted: abort trap, sim-heap event log; the cell matrix is swept by seeded sampling (fired counts per cell in the evidence), not by construction",
+      "deterministic simulation with fault injection: stray bitwise copies at a seeded point of a seeded history, fail-stop + no-release oracle",
+      "DESIGN.md 4.C20")
